@@ -150,7 +150,8 @@ def d1_transitions(facts, rep):
             if o['kind'] != 'store' or fn.cv(o['val']) != 1:
                 continue
             rt = fn.n(root_of(fn, o['obj']))
-            own = rt.get('k') == 'var' and rt.get('n') == 's' and 'param' in rt and '->' not in o['path'] and 'load' not in o['path']
+            lock_params = set(p['v'] for p in fn.d.get('params', []) if 'scoped_lock' in p['ty'])     # the caller's own queue node
+            own = rt.get('k') == 'var' and rt.get('v') in lock_params and '->' not in o['path'] and 'load' not in o['path']
             if own:
                 continue      # marking one's own node needs no release: nobody else reads it for synchronisation
             n_going += 1
@@ -307,7 +308,8 @@ def d3_try(facts, rep):
     # RTM: waits in acquire* are behind !only_speculate
     for fname in (R1 + 'rtm_mutex_impl::acquire', R1 + 'rtm_rw_mutex_impl::acquire_writer', R1 + 'rtm_rw_mutex_impl::acquire_reader'):
         for fn in facts.get(fname):
-            e = edges_where(fn, lambda a, truth: (not truth) and fn.n(fn.strip(a)).get('k') == 'var' and fn.n(fn.strip(a))['n'] == 'only_speculate')
+            spec = set(p['v'] for p in fn.d.get('params', []) if p['ty'] == 'bool')      # the only_speculate flag
+            e = edges_where(fn, lambda a, truth: (not truth) and fn.n(fn.strip(a)).get('k') == 'var' and fn.n(fn.strip(a)).get('v') in spec)
             for pos, s, node in fn.stmt_elems(('call',)):
                 if blocking(fn, pos, s):
                     ok, wit = dominated_by_edges(fn, pos, e)
